@@ -26,35 +26,45 @@ from vlib.shrink import ddmin
 from tables.c09 import canon, jtext
 
 META = {
-    'level_text': 'Theorems about an explicit object-heap model of HasAccessibles.__init_subclass__ / Module.__init__ / datatype '
-                  'mutation (FrappyModel/Klass): frame (every operation leaves every existing object alone that is not reachable from '
-                  'its target), separated_preserved (every admissible operation - class definition, instantiation, setProperty, enum '
-                  'replacement - keeps: no object reachable from an instance is reachable from another owner), isolated / '
-                  'isolated_reachable (description and validation behaviour of every non-target owner unchanged, after any admissible '
-                  'program), class_description_stable, later_instances_fresh (all for every admissible run).  PARTIAL: '
-                  'order_independent_partial - the value a class is laid out from (ClassRec.pure) equals pureOf(env), a function of '
-                  'the class bodies along its MRO only, for every program whose definition order is consistent with inheritance; '
-                  'that describeH shows exactly this value (faithfulness of the heap layout) is not proved '
-                  '(order_independent_statement).  Tied to the code by a correspondence run (every dump and the id()-sharing '
-                  'partition after every operation of generated programs) and by Lean monitors judging every implementation trace '
-                  '(isolation incl. write_<p>/command-call behaviour, order independence, later instances, writes follow the own datatype).',
+    'level_text': 'Theorems about an explicit object-heap model of HasProperties/HasAccessibles.__init_subclass__, Module.__init__ and '
+                  'datatype mutation (FrappyModel/Klass): frame (every operation leaves every existing object alone that is not reachable '
+                  'from its target), separated_preserved (every admissible operation - class definition incl. module properties, '
+                  'instantiation, setProperty on a parameter or on a member datatype at any path, enum replacement - keeps: no object '
+                  'reachable from an instance is reachable from another owner), isolated / isolated_reachable (description and validation '
+                  'behaviour of every non-target owner unchanged, after any admissible program), class_description_stable, '
+                  'later_instances_fresh; for the module-level properties (group, visibility, custom Property(...), bare values on any '
+                  'number of levels): isolated_mprops, class_mprops_stable, describeM_instantiate, later_instances_mprops (all for every '
+                  'admissible run).  PARTIAL: order_independent_partial - the value a class is laid out from (ClassRec.pure: accessibles '
+                  'and propertyDict) equals pureOf(env), a function of the class bodies along its MRO only, for every program whose '
+                  'definition order is consistent with inheritance; that describeH/describeM show exactly this value (faithfulness of '
+                  'the heap layout) is not proved (order_independent_statement).  Tied to the code by a correspondence run (every dump, '
+                  'propertyDict, property values, exportProperties and the id()-sharing partition incl. Property objects and member '
+                  'datatypes after every operation of generated programs) and by Lean monitors judging every implementation trace '
+                  '(isolation incl. write_<p>/command-call behaviour and module properties, order independence, later instances, writes '
+                  'follow the own datatype).',
     'level_note': 'Trusted: Lean kernel + axioms propext/Classical.choice/Quot.sound; Python C3 linearisation is an input (the real '
                   '__mro__ is passed to the model); validation behaviour is taken to be a function of the exported datainfo '
                   '(monitored on every run); whether an operation fails is taken from the implementation (the model skips failed '
-                  'operations, the judge demands they change nothing); faithfulness of the heap layout w.r.t. the value-level result '
-                  'is tested by the correspondence run, not proved; write/call outcomes are judged, not predicted by the model.',
+                  'operations, the judge demands they change nothing), in particular whether a bare value is accepted by the datatype '
+                  'of a module property; property values travel in exported form (generated values are fixed points of '
+                  'export(validate(v))); faithfulness of the heap layout w.r.t. the value-level result is tested by the correspondence '
+                  'run, not proved; write/call outcomes are judged, not predicted by the model.',
     'trusted': [
         "Python's C3 linearisation (the real __mro__ of every generated class is passed to the model as data)",
         'validation behaviour of a datatype object is a function of its exported datainfo (checked by the monitor valFunctionalB on every run)',
-        'class bodies are drawn from a template family (type() with Parameter/Command/bare value/None/method declarations), not arbitrary Python',
+        'class bodies are drawn from a template family (type() with Parameter/Command/Property/bare value/None/method declarations), not arbitrary Python',
+        'a LimitsType is told to the model as such (kind "limits", one member); every other datatype object by its exported datainfo',
     ],
     'modelled_not_verified': [
-        'module-level properties (group, visibility, ...): dumped and judged, not predicted by the model',
+        'module properties set by Module.__init__ from the class chain (implementation, interface_classes, features): dumped and judged, not predicted',
         'read_/write_/check_ wrapper generation in __init_subclass__',
-        'Limit parameters, TupleOf declared by generated classes (TupleOf/StatusType appear through frappy.modules only); StructOf only as command argument',
+        'Limit parameters (<p>_min/_max/_limits); ScaledInteger, BLOBType, StatusType/OrType/NoneOr as parameter datatypes (StatusType appears through frappy.modules only)',
         'outcomes of write_<p>(v) through the generated wrapper and of Command.do(): dumped, judged (isolation, order, writesOwn), not predicted',
+        'the module property `export = False` (switches the export of all accessibles off) is never generated',
     ],
-    'assumptions': ['declared datatype objects are not shared between two declarations of the generated program'],
+    'assumptions': ['declared datatype objects are not shared between two declarations of the generated program',
+                    'names of module properties and names of accessibles are kept apart by the generator (pollinterval, a Property of Module '
+                    'and a Parameter of Readable, is the one overlap and is modelled: the Parameter removes the Property)'],
 }
 
 CATALOGUE = [0, 1, -1, 2, 3, 4, 5, 6, 7, 9, 10, 11, 20, 50, 100, 101, 2.5, 1e9, -1e9, 'a', 'abcde', 'x' * 12, True, None,
